@@ -12,7 +12,9 @@ Three kinds of cases (field "op"):
            about them).
 * "order": an instance of one element class of saml/samlp/md/xmldsig/xmlenc with a given number of items per
            member is serialised by pysaml2; the child tag sequence is compared with the Lean serialiser model
-           and checked against the XSD content model (what C13_order_partial proves of the model).
+           and checked against the XSD content model (what C13_order_partial proves of the model).  With an "exts"
+           field the instance also carries extension elements ((namespace, local name) pairs; ready-made extension classes
+           or bare ExtensionElements): model `tagsOfExt`, claim C13_order_ext_partial / C13_ext_container_valid.
 * "lex":   one lexical value against one XSD built-in type: Lean checker vs xmlschema's.
 
 Observable compared with the model: the validity verdict (doc), the child tag sequence (order), the lexical
@@ -39,8 +41,10 @@ CORRESPONDENCE = ("Drivers/C13.lean (Validate.validate over Gen/Schema.lean; Cla
                   "vs saml2.xml.schema.validate / SamlBase._add_members_to_element_tree / xmlschema built-in types")
 RULE = ("random valid configurations x random valid arguments for every public create_* builder and for metadata "
         "generation, each output validated by the Lean validator, xmlschema and valid_instance; one-place mutants of "
-        "the outputs for the validator correspondence; all element classes x random member counts for the child "
-        "order; lexical values per built-in type.  non-trivial = a document was produced (or order/lex case); "
+        "the outputs for the validator correspondence; all element classes x random member counts (with and without extension "
+        "elements) for the child order; lexical values per built-in type; round-5 grids: role-level extensions, discovery endpoints, ui_info / "
+        "key-descriptor / requested-attribute forms, the public factories, create_authn_request_response, the assertion store, attribute "
+        "restrictions, caller-supplied RequestedAuthnContext / NameIDPolicy, wrong argument types.  non-trivial = a document was produced (or order/lex case); "
         "distinct = distinct case JSON")
 TRUSTED = [
     "XML text -> element tree (expat, namespace resolution, resolution of the xsi:type QName) is done by the harness",
@@ -730,12 +734,24 @@ def instance(cfg):
     top = _fix_paths(dict(cfg.get("top", {})))
     if cfg["role"] == "sp":
         svc = copy.deepcopy(cfg["svc"])
-        inst = S.make_sp(S.sp_config(sp=svc, **top))
+        if cfg.get("msg_cb"):  # a message callback that hands the message on unchanged
+            from saml2.client import Saml2Client
+            from saml2.config import SPConfig
+
+            inst = Saml2Client(config=SPConfig().load(S.sp_config(sp=svc, **top)), msg_cb=lambda m: m)
+        else:
+            inst = S.make_sp(S.sp_config(sp=svc, **top))
     elif cfg["role"] == "idp":
         svc = copy.deepcopy(cfg["svc"])
-        if top.pop("sp_no_enc", False):  # the requester publishes a signing key only
+        if top.get("sp_no_enc") or top.get("sp_formats") or top.get("sp_req_attrs"):
             sp_ent = S.default_sp_entity()
-            sp_ent["spsso"] = dict(sp_ent["spsso"], keys=[("signing", "sp")])
+            if top.pop("sp_no_enc", False):  # the requester publishes a signing key only
+                sp_ent["spsso"] = dict(sp_ent["spsso"], keys=[("signing", "sp")])
+            if top.get("sp_formats"):  # ... publishes name-id formats
+                sp_ent["spsso"] = dict(sp_ent["spsso"], nameid_formats=top.pop("sp_formats"))
+            if top.pop("sp_req_attrs", False):  # ... an attribute consuming service with a required attribute
+                sp_ent["spsso"] = dict(sp_ent["spsso"], attr_cs=[[{"name": "urn:oid:2.5.4.42", "name_format": NAMEFORMAT_URI_, "friendly_name": "givenName", "required": True},
+                                                                  {"name": "urn:oid:0.9.2342.19200300.100.1.3", "name_format": NAMEFORMAT_URI_, "friendly_name": "mail", "required": False}]])
             inst = S.make_idp(S.idp_config(sp_entities=[sp_ent], idp=svc, **top))
         else:
             inst = S.make_idp(S.idp_config(idp=svc, **top))
@@ -906,6 +922,23 @@ def call_authn_request(sp, a):
     for k, f in (("scoping", mk_scoping), ("subject", mk_subject), ("conditions", mk_conditions), ("extensions", mk_extensions)):
         if k in kw:
             kw[k] = f(kw[k])
+    rac = kw.get("requested_authn_context")
+    if isinstance(rac, dict) and rac.get("as") == "element":  # handed in as a ready-made element
+        kw["requested_authn_context"] = mk_rac(rac)
+    elif isinstance(rac, dict) and rac.get("as") == "other":  # neither an element nor a mapping (ignored with a warning)
+        kw["requested_authn_context"] = rac["value"]
+    if "name_id_policy_arg" in kw:  # the caller's own NameIDPolicy (or an explicit None) replaces the computed one
+        from saml2 import samlp
+
+        nip = kw.pop("name_id_policy_arg")
+        kw["name_id_policy"] = None if nip is None else samlp.NameIDPolicy(**nip)
+    if "wrong_type" in kw:
+        param, val = kw.pop("wrong_type")
+        kw[param] = val
+        # conditions / subject are checked (ValueError); `scoping` is a named parameter and goes unchecked into the message:
+        # serialisation (done here) crashes on the foreign object (AttributeError), nothing is emitted
+        return _refusal(lambda: _refusal(lambda: str(sp.create_authn_request(dest, **kw)[1]), ValueError, "Wrong type for param"),
+                        AttributeError, "become_child_element_of")
     return sp.create_authn_request(dest, **kw)[1]
 
 
@@ -937,6 +970,21 @@ def call_logout_request(ent, a):
         kw["extensions"] = mk_extensions(kw["extensions"])
     if "name_id" in kw:
         kw["name_id"] = mk_nameid(kw["name_id"])
+    if kw.get("session_indexes"):
+        from saml2 import samlp
+
+        kw["session_indexes"] = [samlp.SessionIndex(text=x["el"]) if isinstance(x, dict) else x for x in kw["session_indexes"]]
+    if kw.pop("idp_cache_lookup", False) and ent.entity_type == "idp":
+        # subject_id on a Server: the name is looked up in `self.users`, which a Server does not have (None): the call
+        # crashes with AttributeError before anything is built -- nothing emitted
+        dest, ieid = kw.pop("destination"), S.SP_ID
+        kw.pop("issuer_entity_id")
+        try:
+            return ent.create_logout_request(dest, ieid, **kw)[1]
+        except AttributeError as e:
+            if "get_entityid" in str(e):
+                return None
+            raise
     if ent.entity_type == "idp":
         # Server has no local-id lookup usable without a user database: the IdP side always passes a NameID
         from saml2 import saml
@@ -1221,8 +1269,10 @@ def call_authz_decision_query(sp, a):
     actions = [saml.Action(text=t, namespace=ns) for t, ns in a["action"]]
     if a["via_assertion"]:
         ass = _received_assertion(a["received"]) if "received" in a else _an_assertion()
-        return sp.create_authz_decision_query_using_assertion(a["destination"], ass, action=[t for t, _ in a["action"]], resource=a["resource"],
-                                                              subject=mk_subject(a["subject"]), **kw)[1]
+        mode = a.get("action_mode", "list")
+        act = [t for t, _ in a["action"]]
+        akw = {} if mode == "omitted" else {"action": act[0] if mode == "str" else act}
+        return sp.create_authz_decision_query_using_assertion(a["destination"], ass, resource=a["resource"], subject=mk_subject(a["subject"]), **akw, **kw)[1]
     return sp.create_authz_decision_query(a["destination"], actions, resource=a["resource"], subject=mk_subject(a["subject"]), **kw)[1]
 
 
@@ -1387,6 +1437,11 @@ def call_attribute_response(idp, a):
         kw["status"] = mk_status(a.get("status"))
     if a.get("farg") is not None:
         kw["farg"] = copy.deepcopy(a["farg"])
+    if "attributes" in a:
+        from saml2 import saml
+
+        kw["attributes"] = [saml.Attribute(name=d.get("name"), name_format=d.get("name_format"), friendly_name=d.get("friendly_name"),
+                                           attribute_value=[saml.AttributeValue(text=v) for v in d.get("values", [])]) for d in a["attributes"]]
     return _nil_crash(lambda: idp.create_attribute_response(a["identity"], a["in_response_to"], a["destination"], a["sp_entity_id"], **kw))
 
 
@@ -1861,6 +1916,15 @@ def run_order(case):
             setattr(inst, m["member"], list(cur) + [klass[0]() for _ in range(n)])
         elif n >= 1:
             setattr(inst, m["member"], klass())
+    for ns, local in case.get("exts", []):
+        # extension elements: ready-made instances of an extension class where there is one, else a bare ExtensionElement
+        import saml2
+
+        klass = _ext_classes().get((ns, local))
+        if klass is not None:
+            inst.add_extension_element(klass())
+        else:
+            inst.extension_elements.append(saml2.ExtensionElement(local, namespace=ns or None))
     et = inst._to_element_tree()
     t = _rows["__t__"]
     tags = []
@@ -1869,6 +1933,23 @@ def run_order(case):
         tags.append([t.ns_id.get(ns, 1), t.name_id.get((ns, local), 0)])  # same interning as Gen/Schema.lean
     return {"tags": tags}
 
+
+_extcls = {}
+
+
+def _ext_classes():
+    if not _extcls:
+        from saml2 import md, saml
+        from saml2.extension import idpdisc, mdattr, mdui, shibmd
+
+        for c in (mdui.UIInfo, shibmd.Scope, idpdisc.DiscoveryResponse, mdattr.EntityAttributes, saml.Attribute, md.NameIDFormat):
+            _extcls[(c.c_namespace, c.c_tag)] = c
+    return _extcls
+
+
+EXT_POOL = [["urn:x-verif:ext", "Hint"], ["urn:oasis:names:tc:SAML:metadata:ui", "UIInfo"], ["urn:mace:shibboleth:metadata:1.0", "Scope"],
+            ["urn:oasis:names:tc:SAML:profiles:SSO:idp-discovery-protocol", "DiscoveryResponse"], ["urn:oasis:names:tc:SAML:metadata:attribute", "EntityAttributes"],
+            [SAML, "Attribute"], [MD, "NameIDFormat"], [DS, "KeyInfo"], [SAMLP, "Status"], ["", "Unqualified"], ["urn:x-verif:ext", "Other"]]
 
 _xs_types = {}
 
@@ -2342,6 +2423,7 @@ def order_cases(rng, n_random):
         ms = r["members"]
         if not ms:
             yield {"op": "order", "cls": label, "counts": []}
+            yield {"op": "order", "cls": label, "counts": [], "exts": [copy.deepcopy(rng.choice(EXT_POOL)) for _ in range(rng.randint(1, 3))]}
             continue
         mins = [m["min"] for m in ms]
         maxs = [m["max"] if m["max"] is not None else 2 for m in ms]
@@ -2354,6 +2436,18 @@ def order_cases(rng, n_random):
             if tuple(c) not in seen:
                 seen.add(tuple(c))
                 yield {"op": "order", "cls": label, "counts": c}
+        # the same class with extension elements after its members (constrained where the content model ends in an
+        # unbounded particle that admits them, C13_order_ext_partial; compared with the model everywhere)
+        for _ in range(max(1, n_random // 4)):
+            yield {"op": "order", "cls": label, "counts": list(mins), "exts": [copy.deepcopy(rng.choice(EXT_POOL)) for _ in range(rng.randint(1, 3))]}
+    # the two containers of extension elements: empty, every single element of the pool, and random sequences
+    for label in ("md.Extensions", "samlp.Extensions"):
+        if label not in rows():
+            continue
+        for e in EXT_POOL:
+            yield {"op": "order", "cls": label, "counts": [], "exts": [copy.deepcopy(e)]}
+        for _ in range(n_random):
+            yield {"op": "order", "cls": label, "counts": [], "exts": [copy.deepcopy(rng.choice(EXT_POOL)) for _ in range(rng.randint(2, 6))]}
 
 
 def doc_cases(rng, tier):
@@ -2946,7 +3040,359 @@ def falsy_cases():
         yield c
 
 
+# ---------------------------------------------------------------------------- round 5: branches no earlier case reached
+# (anchor coverage, harness/covreport.py): role-level `extensions` of every descriptor, the SP's `ext` endpoints
+# (endpoints.discovery_response), do_key_descriptor forms, do_uiinfo forms incl. its refusals, bare-string requested
+# attributes, the Server entry points create_authn_request_response / create_assertion_id_request_response /
+# create_attribute_response(attributes=), create_authn_request argument forms, the small public factories.
+
+# A configuration that names an extension module which does not exist, or a module with no element in it, makes every
+# do_*_descriptor create the md:Extensions container first and put nothing into it (do_extensions returns None / []):
+# an EMPTY <md:Extensions/> is written, which the metadata schema forbids.  Reported (round 5); until decided the
+# class is generated only with this switch on.
+R5_EMPTY_EXTENSIONS = False
+
+ROLE_EXTENSIONS = [
+    ("shibmd", {"shibmd": {"Scope": {"text": "example.org", "regexp": "false"}}}),
+    ("mdui", {"mdui": {"UIInfo": {"display_name": [{"text": "Example", "lang": "en"}, {"text": "Exempel", "lang": "sv"}],
+                                  "logo": {"text": "http://e.example/l.png", "height": "1", "width": "2"}}}}),
+    ("mdrpi", {"mdrpi": {"RegistrationInfo": {"registrationAuthority": "urn:x:ra", "registrationInstant": "2026-01-01T00:00:00Z",
+                                              "registration_policy": [{"text": "http://e.example/policy", "lang": "en"}]}}}),
+    ("two-modules", {"shibmd": {"Scope": {"text": "a.example"}}, "reqinit": {"RequestInitiator": {"Location": "https://e.example/init", "Binding": "urn:oasis:names:tc:SAML:profiles:SSO:request-init"}}}),
+    ("two-classes", {"mdui": {"UIInfo": {"description": {"text": "d", "lang": "en"}}, "DiscoHints": {"ip_hint": {"text": "192.0.2.0/24"}}}}),
+    ("mdattr", {"mdattr": {"EntityAttributes": {"attribute": [{"Name": "urn:x:a", "NameFormat": "urn:oasis:names:tc:SAML:2.0:attrname-format:uri", "attribute_value": [{"text": "v"}]}]}}}),
+]
+ROLE_EXTENSIONS_EMPTY = [("no-such-module", {"nosuchextensionmodule": {"Thing": {"text": "t"}}}), ("module-without-element", {"shibmd": {}}),
+                         ("absent+present", {"nosuchextensionmodule": {"Thing": {}}, "shibmd": {"Scope": {"text": "b.example"}}})]
+
+
+def _r5_md(service, top=None, label="", **extra):
+    t = {"with_keys": "none", "no_xmlsec": True}
+    t.update(top or {})
+    c = {"op": "doc", "builder": "entity_descriptor", "cfg": {"role": "md", "service": service, "top": t}, "args": {"sign": False}, "grid": "r5:" + label}
+    c.update(extra)
+    return c
+
+
+def r5_metadata_grid():
+    role_ep = {r: {"endpoints": {_REQUIRED_EP[r][0]: [copy.deepcopy(_REQUIRED_EP[r][1])]}} for r in _REQUIRED_EP}
+    # (1) `extensions` inside the section of every role (the AuthnAuthority descriptor reads the AA section's), alone,
+    #     next to the options that also write into the same md:Extensions (ui_info, scope, discovery endpoint), and on
+    #     every role of one entity at once
+    forms = list(ROLE_EXTENSIONS) + (ROLE_EXTENSIONS_EMPTY if R5_EMPTY_EXTENSIONS else ROLE_EXTENSIONS_EMPTY[2:])
+    for name, ext in forms:
+        for role in ("sp", "idp", "aa", "pdp", "aq"):
+            svc = {role: dict(copy.deepcopy(role_ep[role]), extensions=copy.deepcopy(ext))}
+            if role == "aq":
+                svc["aa"] = dict(copy.deepcopy(role_ep["aa"]), extensions=copy.deepcopy(ext))
+            yield _r5_md(svc, label="ext:%s:%s" % (role, name))
+        yield _r5_md({"sp": dict(copy.deepcopy(role_ep["sp"]), extensions=copy.deepcopy(ext), ui_info={"display_name": "E"}),
+                      "idp": dict(copy.deepcopy(role_ep["idp"]), extensions=copy.deepcopy(ext), scope=["example.org"], ui_info={"display_name": "I"}),
+                      "aa": dict(copy.deepcopy(role_ep["aa"]), extensions=copy.deepcopy(ext)),
+                      "aq": copy.deepcopy(role_ep["aq"]), "pdp": dict(copy.deepcopy(role_ep["pdp"]), extensions=copy.deepcopy(ext))},
+                     {"extensions": copy.deepcopy(ext)}, label="ext:all-roles:%s" % name)
+    # (2) the SP's extension ENDPOINT: endpoints.discovery_response in every endpoint form, alone and with ui_info / extensions
+    loc = "https://sp.verif.example/disco"
+    dforms = {"string": loc, "pair": [loc, S.BINDING_DISCO], "triple": [loc, S.BINDING_DISCO, 3], "dict": {"location": loc, "binding": S.BINDING_DISCO},
+              "dict_index": {"location": loc, "binding": S.BINDING_DISCO, "index": "4"}, "bad_index": [loc, S.BINDING_DISCO, "x"]}
+    for fname, form in dforms.items():
+        for extra in ({}, {"ui_info": {"display_name": "E"}}, {"extensions": copy.deepcopy(ROLE_EXTENSIONS[0][1])}):
+            sp = copy.deepcopy(role_ep["sp"])
+            sp["endpoints"]["discovery_response"] = [copy.deepcopy(form)] + ([[loc + "/2", S.BINDING_DISCO]] if fname == "pair" else [])
+            sp.update(copy.deepcopy(extra))
+            c = _r5_md({"sp": sp}, label="disco:%s:%s" % (fname, "+".join(extra) or "alone"))
+            if fname in ("string", "bad_index"):
+                c["lenient"] = True  # no default binding (SAMLError) / an index that is not a number (ValueError): refusals
+            yield c
+    # (3) ui_info forms: lists of strings and dictionaries for the four localised members, logo / keywords in every
+    #     accepted form, and the forms do_uiinfo refuses
+    ui_forms = [
+        {"display_name": ["A", {"text": "B", "lang": "de"}, "C"], "description": [{"text": "d", "lang": "en"}], "information_url": ["http://e.example/i"],
+         "privacy_statement_url": [{"text": "http://e.example/p", "lang": "en"}, "http://e.example/p2"]},
+        {"logo": [{"height": "1", "width": "2", "text": "http://e.example/l.png"}, {"height": "3", "width": "4", "text": "http://e.example/m.png", "lang": "sv", "unknown_key": "x"}]},
+        {"logo": {"height": "1", "width": "2", "text": "http://e.example/l.png", "lang": "en", "unknown_key": "x"}},
+        {"keywords": [{"text": ["a", "b"]}, {"lang": "sv", "text": ["c"]}, "d+e"]},
+        {"keywords": {"text": ["a", "b"]}},
+        {"keywords": []}, {"logo": []}, {"display_name": []},
+        {"logo": ["http://e.example/l.png"]}, {"logo": [{"height": "1", "width": "2", "text": "http://e.example/l.png"}, 5]},
+        {"keywords": [5]}, {"keywords": [["a"]]}, {"keywords": "a+b"}, {"keywords": 7},
+    ]
+    for i, ui in enumerate(ui_forms):
+        for role in ("sp", "idp"):
+            c = _r5_md({role: dict(copy.deepcopy(role_ep[role]), ui_info=copy.deepcopy(ui))}, label="ui:%s:%d" % (role, i))
+            if i in (5, 6, 7):
+                # a ui_info whose only member is an empty list: an EMPTY mdui:UIInfo goes into md:Extensions (valid: the
+                # container is not empty); kept constrained
+                pass
+            yield c
+    # (4) requested attributes whose name format has no converter: from_local_name hands the bare string back
+    for nf in ("urn:oasis:names:tc:SAML:2.0:attrname-format:unspecified", "urn:x-verif:format", NAMEFORMAT_URI_, NAMEFORMAT_BASIC_):
+        for req, opt in ((["givenName"], None), (None, ["mail", "customThing"]), (["givenName", "urn:oid:2.5.4.4"], ["mail"])):
+            sp = dict(copy.deepcopy(role_ep["sp"]), requested_attribute_name_format=nf)
+            if req:
+                sp["required_attributes"] = req
+            if opt:
+                sp["optional_attributes"] = opt
+            for top in ({}, {"name": "svc", "description": ["d", "sv"]}):
+                yield _r5_md({"sp": sp}, dict(top), label="reqattr:%s" % nf)
+    # (5) no role at all: refused
+    yield _r5_md({}, label="no-role")
+
+
+NAMEFORMAT_URI_ = "urn:oasis:names:tc:SAML:2.0:attrname-format:uri"
+NAMEFORMAT_BASIC_ = "urn:oasis:names:tc:SAML:2.0:attrname-format:basic"
+
+
+def call_helper(inst, a):
+    """The small public factories of the anchored modules, called directly; what they return is wrapped into the
+    smallest element that is a schema root where it is not one itself."""
+    from saml2 import md, metadata, s_utils, samlp
+
+    fn = a["fn"]
+    if fn == "status_message_factory":
+        kw = {"fro": a["fro"]} if "fro" in a else {}
+        return s_utils.status_message_factory(a["message"], a["code"], **kw)
+    if fn == "do_idpdisc":
+        sp = md.SPSSODescriptor(protocol_support_enumeration=samlp.NAMESPACE, extensions=md.Extensions(),
+                                assertion_consumer_service=[md.AssertionConsumerService(index="1", binding=S.BINDING_POST, location=S.SP_ACS_POST)])
+        sp.extensions.add_extension_element(metadata.do_idpdisc(a["location"]))
+        return sp
+    if fn == "do_key_descriptor":
+        def certs(spec):
+            if spec is None:
+                return None
+            return [S.cert_b64(n) for n in spec] if isinstance(spec, list) else S.cert_b64(spec)
+
+        kw = {"use": a["use"]} if "use" in a else {}
+        kd = metadata.do_key_descriptor(certs(a.get("cert")), certs(a.get("enc_cert")), **kw)
+        return md.SPSSODescriptor(protocol_support_enumeration=samlp.NAMESPACE, key_descriptor=kd,
+                                  assertion_consumer_service=[md.AssertionConsumerService(index="1", binding=S.BINDING_POST, location=S.SP_ACS_POST)])
+    if fn == "do_role_descriptor":
+        # the descriptor builders called the way metadata tools call them: certificates as one string or as lists
+        conf = instance(a["cfg"])
+        f = getattr(metadata, "do_%s_descriptor" % a["role"])
+        return f(conf, *[(None if s is None else [S.cert_b64(n) for n in s] if isinstance(s, list) else S.cert_b64(s)) for s in (a.get("cert"), a.get("enc_cert"))])
+    raise ValueError(fn)
+
+
+def r5_helper_grid():
+    sp0 = {"role": "sp", "svc": {}, "top": {}}
+
+    def doc(args, **extra):
+        return dict({"op": "doc", "builder": "helper", "cfg": sp0, "args": args, "grid": "r5:helper:" + args["fn"]}, **extra)
+
+    for msg in ("m", "", "a & <b>", "Åke"):
+        for code in STATUS2[:3]:
+            yield doc({"fn": "status_message_factory", "message": msg, "code": code})
+        yield doc({"fn": "status_message_factory", "message": msg, "code": STATUS2[3], "fro": "urn:oasis:names:tc:SAML:2.0:status:Requester"})
+    for loc in ("https://sp.verif.example/disco", "https://sp.verif.example/disco?return=x&y=z", ""):
+        yield doc({"fn": "do_idpdisc", "location": loc})
+    # do_key_descriptor: certificate given as one string / a list of one / of two / not at all, same for the encryption
+    # certificate, for every key usage (and the default)
+    cforms = [None, "idp_sign", ["idp_sign"], ["idp_sign", "idp_sign2"]]
+    eforms = [None, "sp_enc1", ["sp_enc1"], ["sp_enc1", "idp_enc"]]
+    for c in cforms:
+        for e in eforms:
+            for use in (None, "signing", "encryption", "both"):
+                a = {"fn": "do_key_descriptor"}
+                if c is not None:
+                    a["cert"] = c
+                if e is not None:
+                    a["enc_cert"] = e
+                if use:
+                    a["use"] = use
+                if use == "encryption" and e is None and isinstance(c, list):
+                    # usage 'encryption', no encryption certificate, signing certificates as a LIST: the fallback writes the
+                    # list as element text and serialisation crashes (TypeError, nothing emitted) -- the configuration
+                    # design/C13.md lists as judged outside 'valid configuration'; not generated
+                    continue
+                yield doc(a)
+    md_cfg = {"role": "md", "service": {"sp": {"endpoints": {"assertion_consumer_service": copy.deepcopy(_ACS)}},
+                                        "idp": {"endpoints": {"single_sign_on_service": [[S.IDP_SSO_POST, S.BINDING_POST]]}},
+                                        "aa": {"endpoints": {"attribute_service": [["https://idp.verif.example/aa", S.BINDING_SOAP]]}},
+                                        "aq": {"endpoints": {"authn_query_service": [["https://idp.verif.example/aq", S.BINDING_SOAP]]}},
+                                        "pdp": {"endpoints": {"authz_service": [["https://idp.verif.example/pdp", S.BINDING_SOAP]]}}},
+              "top": {"with_keys": "none", "no_xmlsec": True}}
+    for role, root_ok in (("spsso", True), ("idpsso", True), ("aa", True), ("aq", True), ("pdp", True)):
+        for c, e in ((None, None), ("idp_sign", None), (["idp_sign", "idp_sign2"], ["sp_enc1"]), ("idp_sign", "sp_enc1"), (None, ["sp_enc1"])):
+            a = {"fn": "do_role_descriptor", "role": role, "cfg": md_cfg}
+            if c is not None:
+                a["cert"] = c
+            if e is not None:
+                a["enc_cert"] = e
+            yield doc(a)
+
+
+# ---- round 5: Server / client entry points and argument forms
+
+def call_authn_request_response(idp, a):
+    """Server.create_authn_request_response: the positional front of create_authn_response"""
+    from saml2 import samlp
+
+    kw = {k: a[k] for k in ("userid", "authn", "sign_response", "sign_assertion", "sign_alg", "digest_alg", "session_not_on_or_after", "issuer") if k in a}
+    if "name_id" in a:
+        kw["name_id"] = mk_nameid(a["name_id"])
+    if a.get("name_id_policy"):
+        kw["name_id_policy"] = samlp.NameIDPolicy(**{k: v for k, v in a["name_id_policy"].items() if v is not None})
+    if "authn_decl" in a:
+        kw["authn_decl"] = a["authn_decl"]
+    return _nil_crash(lambda: idp.create_authn_request_response(a["identity"], a["in_response_to"], a["destination"], a["sp_entity_id"], **kw))
+
+
+def ga_authn_request_response(rng, cfg):
+    a = ga_authn_response(rng, cfg)
+    return {k: v for k, v in a.items() if k in ("identity", "in_response_to", "destination", "sp_entity_id", "userid", "name_id", "name_id_policy", "authn",
+                                                "sign_response", "sign_assertion", "sign_alg", "digest_alg", "session_not_on_or_after", "issuer")}
+
+
+def call_assertion_id_response2(idp, a):
+    """create_assertion_id_request_response over the states of the assertion store: an identifier that was never stored,
+    an assertion stored signed, stored unsigned, stored unsigned together with the instruction to sign it on delivery."""
+    from saml2 import saml, samlp
+    from saml2.sigver import pre_signature_part  # noqa: F401  (the code under test calls it)
+    from saml2 import class_name
+
+    kw = {k: a[k] for k in ("sign", "sign_alg", "digest_alg") if k in a}
+    if a["stored"] == "never":
+        from saml2.s_utils import Unknown
+
+        try:
+            return idp.create_assertion_id_request_response(a.get("assertion_id", "id-never-stored"), **kw)
+        except Unknown:  # the documented refusal (a plain Exception subclass, not a SAMLError)
+            return None
+    r = idp.create_authn_response(a["identity"], "id-req-1", S.SP_ACS_POST, S.SP_ID, name_id=saml.NameID(text="subject-1", format=NAMEID_FORMATS[0]),
+                                  authn={"class_ref": ACCR[0], "authn_auth": S.IDP_ID}, sign_response=False, sign_assertion=(a["stored"] == "signed"),
+                                  encrypt_assertion=False)
+    if isinstance(r, str):
+        r = samlp.response_from_string(r)
+    ass = r.assertion[0] if isinstance(r.assertion, list) else r.assertion
+    if a["stored"] == "to-sign":
+        ass.signature = None
+        idp.session_db.store_assertion(ass, [(class_name(ass), ass.id)])
+    return idp.create_assertion_id_request_response(ass.id, **kw)
+
+
+def r5_call_grid():
+    sp0 = {"role": "sp", "svc": {}, "top": {}}
+    idp0 = {"role": "idp", "svc": {}, "top": {}}
+    airs = {"role": "idp", "svc": {"endpoints": {"single_sign_on_service": [[S.IDP_SSO_POST, S.BINDING_POST]],
+                                                 "assertion_id_request_service": [["https://idp.verif.example/airs", "urn:oasis:names:tc:SAML:2.0:bindings:URI"]]}}, "top": {}}
+    nid = {"text": "subject-1", "format": NAMEID_FORMATS[1]}
+
+    def doc(builder, cfg, args, **extra):
+        return dict({"op": "doc", "builder": builder, "cfg": cfg, "args": args, "grid": "r5:" + builder}, **extra)
+
+    # Server.create_authn_request_response: identifier forms x signing x authn forms
+    base = {"identity": {"mail": ["a@example.org"], "givenName": ["A"]}, "in_response_to": "id-r5a", "destination": S.SP_ACS_POST, "sp_entity_id": S.SP_ID}
+    for ident in ({"name_id": nid}, {"userid": "user-1"}, {"userid": "user-1", "name_id_policy": {"format": NAMEID_FORMATS[1], "sp_name_qualifier": S.SP_ID}},
+                  {"name_id": nid, "userid": "user-1"}):
+        for sr, sa in ((False, False), (True, False), (False, True), (True, True)):
+            for authn in (None, {"class_ref": ACCR[0]}, {"class_ref": ACCR[1], "authn_auth": S.IDP_ID, "authn_instant": S.NOW0 - 30}):
+                a = dict(copy.deepcopy(base), sign_response=sr, sign_assertion=sa, authn=authn, **copy.deepcopy(ident))
+                yield doc("authn_request_response", idp0, a)
+    for extra in ({"session_not_on_or_after": S.fmt_time(S.NOW0 + 3600)}, {"issuer": S.IDP_ID}, {"sign_alg": SIG_ALGS[1], "digest_alg": DIG_ALGS[1], "sign_assertion": True}):
+        yield doc("authn_request_response", idp0, dict(copy.deepcopy(base), name_id=nid, authn={"class_ref": ACCR[0]}, **extra))
+    # the assertion store behind create_assertion_id_request_response
+    for stored in ("never", "signed", "unsigned", "to-sign"):
+        for kw in ({}, {"sign": True}, {"sign": False}, {"sign_alg": SIG_ALGS[2], "digest_alg": DIG_ALGS[2]}):
+            for ident in ({"givenName": ["A"]}, {}):
+                yield doc("assertion_id_response2", airs, dict({"stored": stored, "identity": ident}, **kw))
+    # create_attribute_response: `attributes=` restrictions, an entity that also has an AA section (policy of its own),
+    # the subject taken from userid
+    aa_svc = {"idp": {"endpoints": {"single_sign_on_service": [[S.IDP_SSO_POST, S.BINDING_POST]]},
+                      "policy": {"default": {"lifetime": {"minutes": 15}, "attribute_restrictions": None}}},
+              "aa": {"endpoints": {"attribute_service": [["https://idp.verif.example/aa", S.BINDING_SOAP]]},
+                     "policy": {"default": {"lifetime": {"minutes": 5}, "attribute_restrictions": None, "name_form": NAMEFORMAT_URI_}}}}
+    idp_aa = {"role": "idp", "svc": {}, "top": {"service": aa_svc}}
+    ident = {"mail": ["a@example.org", "b@example.org"], "givenName": ["A"], "sn": ["B"], "customAttribute": ["c"]}
+    restr = [None, [], [{"friendly_name": "mail"}], [{"friendly_name": "mail", "values": ["a@example.org"]}],
+             [{"name": "urn:oid:2.5.4.42", "name_format": NAMEFORMAT_URI_, "friendly_name": "givenName"}, {"friendly_name": "sn", "values": ["no-such-value"]}],
+             [{"friendly_name": "nothing-the-user-has"}]]
+    for cfg in (idp0, idp_aa):
+        for i, r in enumerate(restr):
+            for subj in ({"name_id": nid}, {"userid": "user-1"}):
+                for sa in (False, True):
+                    a = dict({"identity": copy.deepcopy(ident), "in_response_to": "id-r5b", "destination": S.SP_ACS_POST, "sp_entity_id": S.SP_ID,
+                              "sign_assertion": sa, "sign_response": False}, **copy.deepcopy(subj))
+                    if r is not None:
+                        a["attributes"] = copy.deepcopy(r)
+                    yield doc("attribute_response", cfg, a)
+    # create_authn_response where the requester's metadata matters: published name-id formats with the identifier derived
+    # from userid, and required attributes the user lacks under fail_on_missing_requested (answered by an error response)
+    for formats in (NAMEID_FORMATS[:1], NAMEID_FORMATS[1:3], [NAMEID_FORMATS[2]]):
+        for pol in (None, {"format": NAMEID_FORMATS[1], "sp_name_qualifier": S.SP_ID}, {"format": NAMEID_FORMATS[2]}):
+            a = dict(copy.deepcopy(base), userid="user-1", authn={"class_ref": ACCR[0]}, sign_response=False, sign_assertion=False)
+            if pol:
+                a["name_id_policy"] = pol
+            yield doc("authn_response", {"role": "idp", "svc": {}, "top": {"sp_formats": formats}}, a)
+    for fail in (True, False):
+        for sr in (False, True):
+            for ident2 in ({"mail": ["a@example.org"]}, {"givenName": ["A"]}, {}):
+                pol = {"default": {"lifetime": {"minutes": 15}, "attribute_restrictions": None, "fail_on_missing_requested": fail}}
+                a = dict(copy.deepcopy(base), identity=ident2, name_id=nid, authn={"class_ref": ACCR[0]}, sign_response=sr, sign_assertion=False)
+                yield doc("authn_response", {"role": "idp", "svc": {"policy": pol}, "top": {"sp_req_attrs": True}}, a)
+    # create_authn_request: requested_authn_context given by the CALLER as an element / a mapping / something else, with and
+    # without one in the configuration; name_id_policy handed in (element, None) next to the options it overrides; an
+    # argument of the wrong type for scoping / conditions / subject (refused with ValueError)
+    sp_rac = {"role": "sp", "svc": {"requested_authn_context": {"authn_context_class_ref": [ACCR[1]], "comparison": "minimum"}}, "top": {}}
+    sp_nip = {"role": "sp", "svc": {"name_id_policy_format": NAMEID_FORMATS[1], "name_id_format_allow_create": True}, "top": {}}
+    racs = [{"as": "element", "authn_context_class_ref": [ACCR[0]], "comparison": "exact"}, {"as": "element", "authn_context_class_ref": [ACCR[0], ACCR[3]], "comparison": None},
+            {"as": "element", "authn_context_class_ref": [], "comparison": "better"},
+            {"authn_context_class_ref": [ACCR[0]]}, {"authn_context_class_ref": [], "comparison": "exact"}, {"comparison": "maximum"},
+            {"as": "other", "value": [ACCR[0]]}, {"as": "other", "value": ACCR[0]}, {"as": "other", "value": 7}]
+    for cfg in (sp0, sp_rac):
+        for rac in racs:
+            for sign in (False, True):
+                c = doc("authn_request", cfg, {"destination": S.IDP_SSO_POST, "binding": S.BINDING_POST, "sign": sign, "requested_authn_context": copy.deepcopy(rac)})
+                if rac.get("as") == "element" and not rac["authn_context_class_ref"]:
+                    c["unconstrained"] = "a RequestedAuthnContext element without any class or declaration reference, handed in by the caller, is not a valid argument"
+                yield c
+    nips = [{"format": NAMEID_FORMATS[1]}, {"format": NAMEID_FORMATS[0], "allow_create": "true"}, {"format": NAMEID_FORMATS[2], "sp_name_qualifier": S.SP_ID, "allow_create": "false"}, {}, None]
+    for cfg in (sp0, sp_nip):
+        for nip in nips:
+            for extra in ({}, {"nameid_format": NAMEID_FORMATS[2]}, {"vorg": "urn:mace:example.com:it:tek"}, {"allow_create": "true"}):
+                yield doc("authn_request", cfg, dict({"destination": S.IDP_SSO_POST, "binding": S.BINDING_POST, "sign": False, "name_id_policy_arg": copy.deepcopy(nip)}, **extra))
+    for param in ("scoping", "conditions", "subject"):
+        for bad in ({"proxy_count": "1"}, "text", [S.IDP_ID], 5):
+            yield doc("authn_request", sp0, {"destination": S.IDP_SSO_POST, "binding": S.BINDING_POST, "sign": False, "wrong_type": [param, bad]})
+        for falsy in (None, {}, "", 0):
+            yield doc("authn_request", sp0, {"destination": S.IDP_SSO_POST, "binding": S.BINDING_POST, "sign": False, "wrong_type": [param, falsy]})
+    # create_authz_decision_query_using_assertion: action as a list / one string / omitted
+    for action, mode in (([["read", None]], "list"), ([["read", None], ["write", None]], "list"), ([["read", None]], "str"), ([], "omitted")):
+        for sign in (False, True):
+            c = doc("authz_decision_query", sp0, {"destination": "https://idp.verif.example/pdp", "action": action, "action_mode": mode, "resource": "urn:r", "subject": nid,
+                                                  "via_assertion": True, "sign": sign})
+            if mode == "omitted":
+                c["unconstrained"] = "the builder documents that at least one action has to be given"
+            yield c
+    # create_logout_request: subject_id on an IdP (looked up in the user cache), session indexes as elements / strings / mixed
+    for cfg in (sp0, idp0):
+        for si in (["si-1"], ["si-1", "si-2", "si-3"], [{"el": "si-1"}], [{"el": "si-1"}, "si-2", {"el": "si-3"}], []):
+            for subj in ({"name_id": nid}, {"subject_id": "subject-1"}):
+                a = dict({"destination": S.IDP_SLO_POST, "issuer_entity_id": S.IDP_ID, "session_indexes": copy.deepcopy(si), "sign": False}, **copy.deepcopy(subj))
+                if cfg is idp0 and "subject_id" in subj:
+                    a["idp_cache_lookup"] = True
+                yield doc("logout_request", cfg, a)
+    # a message callback (msg_cb) that hands the request object on
+    for b, a in (("authn_request", {"destination": S.IDP_SSO_POST, "binding": S.BINDING_POST}),
+                 ("logout_request", {"destination": S.IDP_SLO_POST, "issuer_entity_id": S.IDP_ID, "name_id": nid}),
+                 ("attribute_query", {"destination": "https://idp.verif.example/aa", "name_id": nid})):
+        for sign in (False, True):
+            yield doc(b, {"role": "sp", "svc": {}, "top": {}, "msg_cb": "identity"}, dict(copy.deepcopy(a), sign=sign))
+
+
+BUILDERS["authn_request_response"] = (["idp"], True, ga_authn_request_response, call_authn_request_response, 2)
+BUILDERS["assertion_id_response2"] = ([], True, None, call_assertion_id_response2, 0)  # grids only
+BUILDERS["helper"] = ([], True, None, call_helper, 0)  # grids only
+
+
 def gen_cases(rng, tier):
+    for c in r5_metadata_grid():
+        yield c
+    for c in r5_helper_grid():
+        yield c
+    for c in r5_call_grid():
+        yield c
     for c in typed_grid():
         yield c
     for c in falsy_cases():
